@@ -10,6 +10,7 @@ import (
 	"strings"
 
 	"golang.org/x/tools/go/ast/astutil"
+	"golang.org/x/tools/go/packages"
 )
 
 type expansion struct {
@@ -207,13 +208,29 @@ func expandSite(s *inlineSite, k int, overlay map[string][]byte) (*expansion, er
 			if u, isAddr := e.(*ast.UnaryExpr); isAddr && u.Op == token.AND && wantPtr {
 				e = u.X
 			}
-			id, isID := e.(*ast.Ident)
+			// a plain local, or a chain of field selections on one (`w.word`): the same
+			// variable every time it is written
+			root := e
+			for {
+				sel, isSel := root.(*ast.SelectorExpr)
+				if !isSel {
+					break
+				}
+				if si := cinfo.Selections[sel]; si == nil || si.Kind() != types.FieldVal {
+					return ""
+				}
+				root = sel.X
+			}
+			id, isID := root.(*ast.Ident)
 			if !isID {
 				return ""
 			}
 			v, isVar := cinfo.Uses[id].(*types.Var)
 			if !isVar || v.IsField() || v.Parent() == nil || v.Parent() == s.pkg.Types.Scope() || v.Pkg() != s.pkg.Types {
 				return ""
+			}
+			if root != e {
+				return printExpr(e)
 			}
 			return id.Name
 		}
@@ -1330,6 +1347,9 @@ func exprNonNil(info *types.Info, helper *ast.FuncDecl, e ast.Expr, ret *ast.Ret
 		}
 		return false
 	case *ast.SelectorExpr:
+		if sentinelErrs[info.Uses[x.Sel]] {
+			return true // a sentinel of another package (object.ErrKeyNotPresent)
+		}
 		// `if p.err != nil { …; return …, p.err }`: a chain of field selections that
 		// is tested against nil by an enclosing if statement, with nothing between
 		// the test and the return but assignments of call-free expressions to
@@ -1391,6 +1411,10 @@ func exprNonNil(info *types.Info, helper *ast.FuncDecl, e ast.Expr, ret *ast.Ret
 		}
 		return false
 	case *ast.Ident:
+		// a sentinel: a package-level error variable made by errors.New / fmt.Errorf and never assigned again
+		if sentinelErrs[info.Uses[x]] {
+			return true
+		}
 		obj, _ := info.Uses[x].(*types.Var)
 		if obj == nil || obj.IsField() || obj.Parent() == nil || obj.Pkg() == nil || obj.Parent() == obj.Pkg().Scope() {
 			return false
@@ -1567,4 +1591,88 @@ func readsFieldsOnly(info *types.Info, helper *ast.FuncDecl, obj types.Object) b
 		return ok
 	})
 	return ok
+}
+
+// sentinelErrs: package-level error variables of the module that are
+// initialised with errors.New or fmt.Errorf and never stored to or have their
+// address taken anywhere in the module (computed per inlining round).
+var sentinelErrs = map[types.Object]bool{}
+
+func computeSentinelErrs(pkgs []*packages.Package) {
+	sentinelErrs = map[types.Object]bool{}
+	for _, pkg := range pkgs {
+		if !isServitorPath(pkg.PkgPath) || pkg.TypesInfo == nil {
+			continue
+		}
+		for _, f := range pkg.Syntax {
+			for _, d := range f.Decls {
+				gd, ok := d.(*ast.GenDecl)
+				if !ok || gd.Tok != token.VAR {
+					continue
+				}
+				for _, sp := range gd.Specs {
+					vs := sp.(*ast.ValueSpec)
+					if len(vs.Names) != len(vs.Values) {
+						continue
+					}
+					for i, nm := range vs.Names {
+						call, ok := vs.Values[i].(*ast.CallExpr)
+						if !ok {
+							continue
+						}
+						sel, ok := call.Fun.(*ast.SelectorExpr)
+						if !ok {
+							continue
+						}
+						fn, _ := pkg.TypesInfo.Uses[sel.Sel].(*types.Func)
+						if fn == nil || fn.Pkg() == nil {
+							continue
+						}
+						if n := fn.Pkg().Path() + "." + fn.Name(); n == "errors.New" || n == "fmt.Errorf" {
+							if o := pkg.TypesInfo.Defs[nm]; o != nil {
+								sentinelErrs[o] = true
+							}
+						}
+					}
+				}
+			}
+		}
+	}
+	for _, pkg := range pkgs {
+		if !isServitorPath(pkg.PkgPath) || pkg.TypesInfo == nil {
+			continue
+		}
+		objOf := func(e ast.Expr) types.Object {
+			switch x := e.(type) {
+			case *ast.Ident:
+				return pkg.TypesInfo.Uses[x]
+			case *ast.SelectorExpr:
+				return pkg.TypesInfo.Uses[x.Sel]
+			}
+			return nil
+		}
+		for _, f := range pkg.Syntax {
+			ast.Inspect(f, func(n ast.Node) bool {
+				switch x := n.(type) {
+				case *ast.AssignStmt:
+					for _, l := range x.Lhs {
+						if o := objOf(l); o != nil {
+							delete(sentinelErrs, o)
+						}
+					}
+				case *ast.UnaryExpr:
+					if x.Op == token.AND {
+						if o := objOf(x.X); o != nil {
+							delete(sentinelErrs, o)
+						}
+					}
+				case *ast.IncDecStmt:
+					if o := objOf(x.X); o != nil {
+						delete(sentinelErrs, o)
+					}
+				}
+				return true
+			})
+		}
+	}
 }
